@@ -2592,6 +2592,13 @@ void Analyser::AnalyserImpl::analyseModel(const ModelPtr &model)
         for (const auto &externalVariable : mExternalVariables) {
             auto variable = externalVariable->variable();
 
+            if (variable == nullptr) {
+                // An external variable that was created without a variable
+                // cannot be tracked.
+
+                continue;
+            }
+
             if (owningModel(variable) != model) {
                 auto issue = Issue::IssueImpl::create();
 
@@ -3393,6 +3400,10 @@ void Analyser::analyseModel(const ModelPtr &model)
 
 bool Analyser::addExternalVariable(const AnalyserExternalVariablePtr &externalVariable)
 {
+    if (externalVariable == nullptr) {
+        return false;
+    }
+
     if (std::find(pFunc()->mExternalVariables.begin(), pFunc()->mExternalVariables.end(), externalVariable) == pFunc()->mExternalVariables.end()) {
         pFunc()->mExternalVariables.push_back(externalVariable);
 
